@@ -149,6 +149,9 @@ class VC:
     # -- exploration --------------------------------------------------------------------------------
     def explore(self, name, harness, max_paths=400, expect_paths=None):
         """run `harness(path)` once per feasible path of the code it calls"""
+        only = os.environ.get("PYVC_ONLY")
+        if only and only not in name:
+            return 0
         work = [[]]
         n = 0
         t0 = time.time()
@@ -196,12 +199,30 @@ class VC:
 
     # -- discharge ----------------------------------------------------------------------------------
     def discharge(self):
+        todo = [k for k, ob in enumerate(self.obligations) if ob.result is None]
+        jobs = int(os.environ.get("PYVC_JOBS", "12"))
+        if jobs > 1 and len(todo) > 8:
+            # obligations are independent queries: discharged by forked workers (each with its own solver state)
+            import multiprocessing as mp
+            global _DISCHARGE_SELF
+            _DISCHARGE_SELF = self
+            try:
+                with mp.get_context("fork").Pool(min(jobs, len(todo))) as pool:
+                    for k, r in pool.imap_unordered(_discharge_one, todo, chunksize=1):
+                        self.obligations[k].result = r
+            finally:
+                _DISCHARGE_SELF = None
+            return self.obligations
         for ob in self.obligations:
             if ob.result is not None:
                 continue
+            ob.result = self._discharge_ob(ob)
+        return self.obligations
+
+    def _discharge_ob(self, ob):
+        if True:
             if ob.kind == "cover":
-                ob.result = solve.z3_sat(ob.hyps, ob.goal, self.z3_timeout_ms)
-                continue
+                return solve.z3_sat(ob.hyps, ob.goal, self.z3_timeout_ms)
             r = solve.z3_check(ob.hyps, ob.goal, self.z3_timeout_ms, ob.watch)
             if r.status == solve.UNKNOWN:
                 r2 = solve.ring_check(ob.hyps, ob.goal)
@@ -215,8 +236,7 @@ class VC:
                         r = r3
                     else:
                         r.reason = f"z3: {r.reason}; ring: {r2.reason}; cvc5: {r3.reason}"
-            ob.result = r
-        return self.obligations
+            return r
 
     def by_status(self):
         out = {"proved": [], "refuted": [], "unknown": [], "cover_ok": [], "cover_fail": [], "cover_unknown": []}
@@ -228,6 +248,15 @@ class VC:
                 key = r.status
             out[key].append(ob)
         return out
+
+
+_DISCHARGE_SELF = None
+
+
+def _discharge_one(k):
+    vc = _DISCHARGE_SELF
+    r = vc._discharge_ob(vc.obligations[k])
+    return k, r
 
 
 class _Consts:
